@@ -1,5 +1,7 @@
 """ipc-layer rules: IDX-POS, RX-MOVE, REWRAP (C04); WHOLE-BUF, HDR-SYM, FRAG-CONTIG, REASM-CONTIG (C01);
 SHM-SENTINEL, SHM-COUPLE, SHM-LEN, SHM-SIBLING (C05)."""
+import re
+
 from vlib.flow import Expr, Tracer, chain_calls, chain_calls_ip, edge_label, expr_str, expr_strip_blocks, path_summaries
 from vlib.mir import callee_name, op_const, op_local, op_place, strip_generics
 from rules.send import _root_local, first_fragment_fn, followup_fn, send_fn, _position_local
@@ -825,6 +827,108 @@ def rule_shm_couple(ctx, cfg, F):
     R.count("constructions[%s]" % cfg, n)
 
 
+
+_ELEM_SIZE = {"u8": 1, "i8": 1, "u16": 2, "i16": 2, "u32": 4, "i32": 4, "u64": 8, "i64": 8, "usize": 8, "isize": 8}
+
+
+def _pointee_size(ty):
+    m = re.match(r"\*(?:mut|const) (\w+)$", ty or "")
+    return _ELEM_SIZE.get(m.group(1)) if m else None
+
+
+def _ptr_offset(f, operand, ex, depth=0):
+    """decompose a raw pointer operand into (base expression, [(count expression, element size)]): follows copies, casts and
+    `ptr.add(n)` / `ptr.offset(n)` calls, scaling n by the pointee size of the pointer it is applied to.  None if a step is not understood."""
+    l = op_local(operand)
+    terms = []
+    seen = set()
+    while l is not None and l not in seen and depth < 32:
+        seen.add(l)
+        ds = [d for d in f.defs().get(l, []) if not f.is_cleanup(d[0]) and not (d[1] is not None and d[2]["lhs"].get("p"))]
+        if len(ds) != 1:
+            break
+        b, si, node = ds[0]
+        if si is None:
+            nm = strip_generics(callee_name(node))
+            if nm in ("std::ptr::mut_ptr::add", "std::ptr::const_ptr::add", "std::ptr::mut_ptr::offset", "std::ptr::const_ptr::offset", "std::ptr::mut_ptr::wrapping_add", "std::ptr::const_ptr::wrapping_add"):
+                sz = _pointee_size(f.local_ty(op_local(node["args"][0]))) if op_local(node["args"][0]) is not None else None
+                if sz is None:
+                    return None
+                terms.append((expr_strip_blocks(ex.of_operand(node["args"][1])), sz))
+                l = op_local(node["args"][0])
+                continue
+            if nm in ("std::ptr::mut_ptr::byte_add", "std::ptr::const_ptr::byte_add"):
+                terms.append((expr_strip_blocks(ex.of_operand(node["args"][1])), 1))
+                l = op_local(node["args"][0])
+                continue
+            if nm in ("std::ptr::mut_ptr::cast", "std::ptr::const_ptr::cast", "std::ptr::mut_ptr::cast_const", "std::ptr::const_ptr::cast_mut"):
+                l = op_local(node["args"][0])
+                continue
+            break
+        rv = node["rv"]
+        if rv["r"] in ("use", "cast") and op_place(rv["a"][0]) is not None and not rv["a"][0]["pl"].get("p"):
+            l = rv["a"][0]["pl"]["l"]
+            continue
+        break
+    base = expr_strip_blocks(ex.of_operand({"k": "cp", "pl": {"l": l}})) if l is not None else None
+    return base, terms
+
+
+def _scaled(term):
+    """(count expr, size) -> (core expr, byte multiplier): folds `x * c` into the multiplier"""
+    e, k = term
+    while True:
+        if e[0] == "field" and e[1][0] == "bin" and e[1][1] in ("MulWithOverflow",) and e[2] == 0:
+            e = ("bin", "Mul", e[1][2], e[1][3])
+        if e[0] == "bin" and e[1] in ("Mul", "MulUnchecked") and e[3][0] == "const" and isinstance(e[3][1], int):
+            e, k = e[2], k * e[3][1]
+            continue
+        if e[0] == "bin" and e[1] in ("Mul", "MulUnchecked") and e[2][0] == "const" and isinstance(e[2][1], int):
+            e, k = e[3], k * e[2][1]
+            continue
+        return e, k
+
+
+def fill_cover(f, L):
+    """do the raw-slice writes of this function cover bytes [0, L) of one mapping contiguously?
+    returns (ok, description).  Accepted shapes: one segment of L bytes at offset 0; or the word-wise split
+    [0, (L/W)*W) in W-byte elements followed by [(L/W)*W, +L%W) in bytes."""
+    ex = Expr(f)
+    segs = []
+    for b, t in f.calls():
+        nm = strip_generics(callee_name(t))
+        if nm in ("std::slice::from_raw_parts_mut", "std::ptr::write_bytes", "std::ptr::copy_nonoverlapping"):
+            pa = t["args"][1] if nm == "std::ptr::copy_nonoverlapping" else t["args"][0]
+            po = _ptr_offset(f, pa, ex)
+            if po is None:
+                return False, "a fill pointer is computed in a way the rule does not follow"
+            base, terms = po
+            esz = _pointee_size(f.local_ty(op_local(pa))) if op_local(pa) is not None else None
+            if esz is None:
+                return False, "element size of a fill slice is unknown"
+            cnt = expr_strip_blocks(ex.of_operand(t["args"][-1]))
+            segs.append((repr(base), [_scaled(x) for x in terms], _scaled((cnt, esz))))
+    if not segs:
+        return False, "no fill found"
+    if len({s[0] for s in segs}) != 1:
+        return False, "the fill segments are based on different pointers"
+    Lr = repr(L)
+    zero = [s for s in segs if not s[1]]
+    if len(segs) == 1 and zero and repr(segs[0][2][0]) == Lr and segs[0][2][1] == 1:
+        return True, "one segment [0, length)"
+    if len(segs) == 2 and len(zero) == 1:
+        first = zero[0]
+        second = [s for s in segs if s is not first][0]
+        q, W = first[2]
+        if q[0] == "bin" and q[1] == "Div" and repr(q[2]) == Lr and q[3] == ("const", W) and W > 1:
+            r, one = second[2]
+            if len(second[1]) == 1 and second[1][0] == (q, W) and one == 1 and r[0] == "bin" and r[1] == "Rem" and repr(r[2]) == Lr and r[3] == ("const", W):
+                return True, "word-wise split [0,(L/%d)*%d) + remainder" % (W, W)
+            return False, "the second fill segment does not start where the first ends ((length / %d) * %d bytes) or does not have length %% %d bytes: starts at %s, counts %s" % (
+                W, W, W, " + ".join("%s*%d" % (expr_str(e), k) for e, k in second[1]), "%s*%d" % (expr_str(r), one))
+    return False, "fill segments do not add up to [0, length): %s" % [(" + ".join("%s*%d" % (expr_str(e), k) for e, k in s[1]) or "0", "%s*%d" % (expr_str(s[2][0]), s[2][1])) for s in segs]
+
+
 def rule_shm_len(ctx, cfg, F):
     R = ctx.rule("SHM-LEN", "in from_byte / from_bytes one length value feeds BackingStore::new (hence ftruncate), map_file(Some(_)), the fill and the region's length")
     n = 0
@@ -844,9 +948,17 @@ def rule_shm_len(ctx, cfg, F):
                 e = expr_strip_blocks(ex.of_operand(t["args"][1]))
                 vals["map"] = e[2][0] if e[0] == "agg" and e[1].endswith("Some") else e
             elif nm in ("std::slice::from_raw_parts_mut", "std::ptr::copy_nonoverlapping", "std::ptr::write_bytes"):
-                vals["fill"] = expr_strip_blocks(ex.of_operand(t["args"][-1]))
+                pass        # the fill is decided by fill_cover below
             elif nm.endswith("OsIpcSharedMemory::from_raw_parts"):
                 vals["len"] = expr_strip_blocks(ex.of_operand(t["args"][1]))
+        if "len" in vals:
+            okc, why = fill_cover(f, vals["len"])
+            if okc:
+                vals["fill"] = vals["len"]
+                R.ok("%s: the fill covers the mapping: %s" % (name, why), f.loc(0), cfg)
+            else:
+                R.violate("%s:fill-not-covering" % name, "the bytes written by the fill are not exactly [0, length) of the mapping: %s" % why, f.path, f.loc(0), config=cfg)
+                continue
         if set(vals) >= {"store", "map", "fill", "len"} and len({repr(v) for v in vals.values()}) == 1:
             R.ok("%s: one length (%s) for store, map, fill and region" % (name, expr_str(vals["len"])), f.loc(0), cfg)
         else:
